@@ -254,6 +254,9 @@ func (r *Rng) xmlNode(g *XGen, depth int) *XNode {
 	for i := 0; i < na; i++ {
 		an := r.Pick(g.AttrNames)
 		a := XAttr{Name: an, Value: r.Pick(g.Texts)}
+		if r.P(12) {
+			a.Value = ""
+		}
 		if g.Namespaces && r.P(10) {
 			a.prefix = r.Pick([]string{"ns", "p"})
 			a.Space = "urn:" + a.prefix
